@@ -20,7 +20,7 @@
    floor(q) - mod*floor(q/mod) = floor(q) mod mod  (floor(q/mod) =
    floor(floor(q)/mod) for an integer mod), and floor(q) = n div `div`.
    Hence int(n / div % mod) = (n div `div`) mod `mod` (= (n mod (div*mod)) div `div`);
-   this is lemma `sg_x_real_form` in GenProofs.v, stated over Q.  The floats
+   (argued here, not proved in Coq).  The floats
    are exact enough: for |n|,|div| < 2^26 the correctly rounded quotient never
    crosses an integer, and fmod is exact.  The correspondence check compares
    the integer form against the running code on every generated case.
